@@ -1,4 +1,4 @@
-// Sample functions exercising the semantic rewrite rules R2, R4, R14, R17, R18, R19. `rules_selftest.py`
+// Sample functions exercising the semantic rewrite rules R2, R4, R14, R17, R18, R19, R21. `rules_selftest.py`
 // compiles this file twice -- as written, and after the rules were applied by tools/rules.py -- and compares
 // the output of the two programs.
 pub struct Acc { pub v: Vec<u32>, pub total: u32 }
@@ -44,7 +44,22 @@ pub fn bump2(mut pairs: Vec<(u32, String)>) -> Vec<(u32, String)> {
     for p in &mut pairs { p.0 += 1; }
     pairs
 }
+// R21: `&dyn Trait` in argument position (recursion through the trait object, like the cycle search)
+pub trait Node { fn id(&self) -> u32; fn walk<'a>(&'a self, seen: &mut Vec<u32>); }
+pub struct Leaf(pub u32);
+pub struct Pair(pub u32, pub Leaf, pub Leaf);
+impl Node for Leaf { fn id(&self) -> u32 { self.0 } fn walk<'a>(&'a self, _seen: &mut Vec<u32>) {} }
+impl Node for Pair { fn id(&self) -> u32 { self.0 } fn walk<'a>(&'a self, seen: &mut Vec<u32>) { enter(&self.1, seen); enter(&self.2, seen); } }
+pub fn enter<'a>(node: &'a dyn Node, seen: &mut Vec<u32>) {
+    if seen.contains(&node.id()) { return; }
+    seen.push(node.id());
+    node.walk(seen);
+}
 fn main() {
+    let mut seen = vec![];
+    enter(&Pair(1, Leaf(2), Leaf(2)), &mut seen);
+    enter(&Leaf(7), &mut seen);
+    println!("{:?}", seen);
     let a = Acc { v: vec![], total: 0 }.with(3).with(4).with(9);
     println!("{:?} {}", a.v, a.total);
     let mut w = Wrap(Acc { v: vec![1, 0, 7], total: 8 });
